@@ -87,7 +87,8 @@ func Load(cfg Config) (*Program, error) {
 	var normOverlay map[string][]byte
 	var dead []string
 	if !cfg.NoNormalize {
-		// normal form, in stages: (1) helpers the rules do not know are inlined into
+		// normal form, in stages, repeated while one of them finds work: (0) calls through method-value locals
+		// are made direct, (1) helpers the rules do not know are inlined into
 		// their callers, (2) loops over local literal tables are written out row by row,
 		// (3) local struct variables only used field by field become one local per field
 		cum := map[string][]byte{}
@@ -95,11 +96,12 @@ func Load(cfg Config) (*Program, error) {
 			cum[k] = v
 		}
 		stages := []func([]*packages.Package) *norm.Result{
+			func(ps []*packages.Package) *norm.Result { return norm.Devirt(ps, Module) },
 			func(ps []*packages.Package) *norm.Result { return norm.Plan(ps, norm.Known(), Module) },
 			func(ps []*packages.Package) *norm.Result { return norm.Unroll(ps, Module) },
 			func(ps []*packages.Package) *norm.Result { return norm.Scalarise(ps, Module) },
 		}
-		for round := 0; round < 3; round++ {
+		for round := 0; round < 4; round++ {
 			progress := false
 			for si, stage := range stages {
 				res := stage(pkgs)
@@ -149,11 +151,11 @@ func Load(cfg Config) (*Program, error) {
 				for k, v := range res.Overlay {
 					normOverlay[k] = v
 				}
-				if si == 0 {
+				if si == 1 {
 					dead = norm.DeadHelpers(pkgs, norm.Known(), Module)
 				}
 				for _, s := range res.Inlined {
-					if si == 0 {
+					if si == 1 {
 						notes = append(notes, "inlined "+s)
 					} else {
 						notes = append(notes, s)
